@@ -73,6 +73,37 @@ func codecPost(c *vlib.Check) error {
 	var mu sync.Mutex
 	races := 0
 	var firstErr error
+	// systematic part: every unordered pair of operations (including an operation with itself), each in a fresh process
+	names := codecops.Names()
+	type pr struct{ a, b string }
+	var prs []pr
+	for i := range names {
+		for j := i; j < len(names); j++ {
+			prs = append(prs, pr{names[i], names[j]})
+		}
+	}
+	vlib.Parallel(len(prs), 16, func(i int) {
+		cmd := exec.Command(vr, "pair", prs[i].a, prs[i].b)
+		cmd.Env = append(os.Environ(), "VERIF_CODEC_INPUTS="+ip, "GORACE=halt_on_error=1 exitcode=66")
+		var stderr strings.Builder
+		cmd.Stderr = &stderr
+		_, err := cmd.Output()
+		mu.Lock()
+		defer mu.Unlock()
+		if strings.Contains(stderr.String(), "WARNING: DATA RACE") {
+			races++
+			fn := "?"
+			if m := reRaceFn.FindStringSubmatch(stderr.String()); m != nil {
+				fn = strings.TrimPrefix(m[1], "github.com/ovh/kmip-go/")
+			}
+			c.Violation("race:"+fn, fmt.Sprintf("data race reported by the Go race detector while %s and %s ran on two goroutines: %s", prs[i].a, prs[i].b, firstLines(stderr.String(), 14)),
+				map[string]any{"kind": "race-pair", "a": prs[i].a, "b": prs[i].b, "report": firstLines(stderr.String(), 40)})
+			return
+		}
+		if err != nil && firstErr == nil {
+			firstErr = fmt.Errorf("vrace pair %s %s: %v: %s", prs[i].a, prs[i].b, err, firstLines(stderr.String(), 5))
+		}
+	})
 	vlib.Parallel(rounds, 16, func(i int) {
 		cmd := exec.Command(vr, fmt.Sprint(i))
 		cmd.Env = append(os.Environ(), "VERIF_CODEC_INPUTS="+ip, "GORACE=halt_on_error=1 exitcode=66")
@@ -95,7 +126,7 @@ func codecPost(c *vlib.Check) error {
 			firstErr = fmt.Errorf("vrace round %d: %v: %s", i, err, firstLines(stderr.String(), 5))
 		}
 	})
-	c.Extra["race_pass"] = map[string]any{"fresh_process_rounds": rounds, "race_reports": races,
+	c.Extra["race_pass"] = map[string]any{"fresh_process_rounds": rounds, "operation_pairs": len(prs), "race_reports": races,
 		"note": "free-running real goroutines, built with -race and without the overlay; supporting evidence for the 'no data race' clause, not exhaustive"}
 	return firstErr
 }
